@@ -314,10 +314,13 @@ unsafe impl Hal for QuietHal {
     unsafe fn unshare(_paddr: crate::PhysAddr, _buffer: NonNull<[u8]>, _d: crate::BufferDirection, _ap: bool) {}
 }
 
-/// k08 (bounded stand-in, thorough tier only: ONE concrete offered word VERSION_1 (no event index, so that
-/// `should_notify` reads the zeroed used.flags and answers true), modern layout, two queues of 32, 32 buffers posted).
-/// EXPECTED TO FAIL on the unchanged tree - suspected defect D5: `VirtIOInput::new` calls
-/// `transport.notify(QUEUE_EVENT)` before `transport.finish_init()`.
+/// k08 (concrete scenario: offered = VERSION_1 (no event index, so that `should_notify` reads the zeroed used.flags and
+/// answers true), modern layout, two queues of 32, 32 buffers posted).  FAILS on the unchanged tree - suspected defect
+/// D5: `VirtIOInput::new` calls `transport.notify(QUEUE_EVENT)` before `transport.finish_init()`.
+/// NOT in any tier list: under CBMC the formula of two 32-entry queues exceeds the 30 GB address-space cap of kanirun
+/// ("Solver ran out of memory during propositional reduction", after 8 min).  The harness body is deterministic, so it is
+/// replayed natively instead (`cargo kani playback` with the single value `legacy = false`): it panics with
+/// "C08: available-buffer notification before DRIVER_OK" on the unchanged tree and passes with the two statements swapped.
 #[kani::proof]
 #[kani::unwind(50)]
 fn k08_new_input() {
